@@ -426,6 +426,15 @@ func ruleOU3(c *Ctx) {
 					committed = call.Common().Args[1]
 				}
 			}
+			// when the command can append update events to the creation, both fields must be read off the replay
+			anyReplay := false
+			for _, fl := range []string{"State", "ClaimedBy"} {
+				for _, v := range out[fl] {
+					if c.hasReplayEdge(v, re) {
+						anyReplay = true
+					}
+				}
+			}
 			for _, fl := range []string{"State", "ClaimedBy"} {
 				ok := len(out[fl]) > 0
 				why := ""
@@ -433,6 +442,10 @@ func ruleOU3(c *Ctx) {
 					if !c.replyStateOK(v, fl, ev, re, committed) {
 						ok = false
 						why = c.canon(v)
+					}
+					if anyReplay && !c.hasReplayEdge(v, re) {
+						ok = false
+						why = "the sibling field is read off the replay of the committed events but this one stays the creation constant"
 					}
 				}
 				c.check(ok, fn, "create-reply|"+fl, c.Pos(ev.Call.Pos()), "reply."+fl+" is the created value or is read off a replay of exactly the events being committed", "the create reply's "+fl+" ("+why+") is neither the committed constant nor read off a replay of the committed events: the reply can contradict the next read")
@@ -686,4 +699,24 @@ func valueDerivesFromCallToInstr(v ssa.Value, call ssa.CallInstruction) bool {
 		return false
 	}
 	return derivesFrom(v, cv)
+}
+
+// hasReplayEdge: v (or one of its phi edges) is read off a call to replayEvents.
+func (c *Ctx) hasReplayEdge(v ssa.Value, re *ssa.Function) bool {
+	if re == nil {
+		return false
+	}
+	v = resolve(v)
+	if ph, ok := v.(*ssa.Phi); ok {
+		for _, e := range ph.Edges {
+			if c.hasReplayEdge(e, re) {
+				return true
+			}
+		}
+		return false
+	}
+	if _, isConst := v.(*ssa.Const); isConst {
+		return false
+	}
+	return valueDerivesFromCallTo(v, re)
 }
